@@ -329,6 +329,7 @@ func Gen(prop, tier string, seed, run uint64) Plan {
 		}
 		return l
 	}
+	detachScript := "" // converter that is detached from its last tag at the end of the plan
 	invalid := prop == "C11"
 	// lastDef/prevDef: a tag deleted and re-added (or updated and updated back)
 	// with the *same* definition while a job for it is in flight passes every
@@ -530,6 +531,12 @@ func Gen(prop, tier string, seed, run uint64) Plan {
 		}
 		at := r.IntN(1 + len(mutOps)/3)
 		mutOps = append(mutOps[:at], append(pre, mutOps[at:]...)...)
+		if (prop == "C06" || prop == "C16") && r.IntN(3) == 0 {
+			// later the converter loses its last tag (its cache is dropped) after
+			// viewers converted streams on demand, also streams the tag never matched
+			mutOps = append(mutOps, Op{C: CMut, K: "SetConv", Name: name})
+			detachScript = pre[1].Convs[0]
+		}
 	}
 	if prop == "C12" || prop == "C20" {
 		// settings and endpoints bookkeeping
@@ -555,6 +562,13 @@ func Gen(prop, tier string, seed, run uint64) Plan {
 	}
 	// viewer
 	var viewOps []Op
+	if detachScript != "" {
+		viewOps = append(viewOps, Op{C: CView, K: "OpenView", V: 99})
+		for i, m := 0, 2+r.IntN(3); i < m; i++ {
+			viewOps = append(viewOps, Op{C: CView, K: "StreamData", V: 99, Stream: uint64(r.IntN(nStreams + 1)), Conv: detachScript})
+		}
+		viewOps = append(viewOps, Op{C: CView, K: "ReleaseView", V: 99})
+	}
 	nView := 2 + r.IntN(10)
 	if prop == "C16" || prop == "C10" || prop == "C13" {
 		nView += r.IntN(10)
@@ -599,7 +613,7 @@ func Gen(prop, tier string, seed, run uint64) Plan {
 	} else if (prop == "C10" || prop == "C05" || prop == "C08" || prop == "C07" || prop == "C06" || prop == "C16") && r.IntN(5) == 0 {
 		// a capture file that holds no packet (a rotated capture with only its header)
 		bad := Op{C: CImp, K: "ImportBad", V: 3}
-		if r.IntN(3) == 0 {
+		if r.IntN(2) == 0 {
 			bad.V = 0 // not a capture at all: skipped by the import, never listed
 		}
 		at := r.IntN(len(impOps) + 1)
